@@ -29,11 +29,16 @@ theorem eqvWith_refl (f : Attr → Attr) : ∀ a : Expr, Expr.eqvWith f a a = tr
   | .pow b n => by simp [Expr.eqvWith, eqvWith_refl f b]
   | .app g es => by simp [Expr.eqvWith, eqvWithList_refl f es]
   | .node c es t => by simp [Expr.eqvWith, eqvWithList_refl f es]
-  | .psum b ixs => by simp [Expr.eqvWith, eqvWith_refl f b]
+  | .psum b ixs => by simp [Expr.eqvWith, eqvWith_refl f b, eqvWithBinders_refl f ixs]
   | .idx g es => by simp [Expr.eqvWith, eqvWithList_refl f es]
 theorem eqvWithList_refl (f : Attr → Attr) : ∀ as : List Expr, Expr.eqvWithList f as as = true
   | [] => by simp [Expr.eqvWithList]
   | a :: as => by simp [Expr.eqvWithList, eqvWith_refl f a, eqvWithList_refl f as]
+theorem eqvWithBinders_refl (f : Attr → Attr) :
+    ∀ bs : List (Sym × List Expr), Expr.eqvWithBinders f bs bs = true
+  | [] => by simp [Expr.eqvWithBinders]
+  | (i, pool) :: rest => by
+      simp [Expr.eqvWithBinders, eqvWithList_refl f pool, eqvWithBinders_refl f rest]
 end
 
 mutual
@@ -84,8 +89,16 @@ theorem eqvWith_eq {P : Attr → Prop} (f : Attr → Attr)
   | .psum x ixs, b, ha, hb, h => by
       cases b with
       | psum y jxs =>
-        simp only [Expr.eqvWith, Bool.and_eq_true, decide_eq_true_eq] at h
-        rw [eqvWith_eq f hinj x y (by simpa [attrsOf] using ha) (by simpa [attrsOf] using hb) h.1, h.2]
+        simp only [Expr.eqvWith, Bool.and_eq_true] at h
+        have ha' : (∀ z ∈ attrsOf x, P z) ∧ (∀ z ∈ attrsOfBinders ixs, P z) := by
+          constructor
+          · intro z hz; exact ha z (by simp [attrsOf, hz])
+          · intro z hz; exact ha z (by simp [attrsOf, hz])
+        have hb' : (∀ z ∈ attrsOf y, P z) ∧ (∀ z ∈ attrsOfBinders jxs, P z) := by
+          constructor
+          · intro z hz; exact hb z (by simp [attrsOf, hz])
+          · intro z hz; exact hb z (by simp [attrsOf, hz])
+        rw [eqvWith_eq f hinj x y ha'.1 hb'.1 h.1, eqvWithBinders_eq f hinj ixs jxs ha'.2 hb'.2 h.2]
       | _ => simp [Expr.eqvWith] at h
   | .idx g es, b, ha, hb, h => by
       cases b with
@@ -104,6 +117,17 @@ theorem eqvWithList_eq {P : Attr → Prop} (f : Attr → Attr)
       simp only [Expr.eqvWithList, Bool.and_eq_true] at h
       rw [eqvWith_eq f hinj a b (fun x hx => ha x (by simp [attrsOfList, hx])) (fun y hy => hb y (by simp [attrsOfList, hy])) h.1,
           eqvWithList_eq f hinj as bs (fun x hx => ha x (by simp [attrsOfList, hx])) (fun y hy => hb y (by simp [attrsOfList, hy])) h.2]
+theorem eqvWithBinders_eq {P : Attr → Prop} (f : Attr → Attr)
+    (hinj : ∀ x y, P x → P y → f x = f y → x = y) :
+    ∀ (as bs : List (Sym × List Expr)), (∀ x ∈ attrsOfBinders as, P x) → (∀ y ∈ attrsOfBinders bs, P y) →
+      Expr.eqvWithBinders f as bs = true → as = bs
+  | [], [], _, _, _ => rfl
+  | [], _ :: _, _, _, h => by simp [Expr.eqvWithBinders] at h
+  | _ :: _, [], _, _, h => by simp [Expr.eqvWithBinders] at h
+  | (i, p) :: as, (j, q) :: bs, ha, hb, h => by
+      simp only [Expr.eqvWithBinders, Bool.and_eq_true, decide_eq_true_eq] at h
+      rw [h.1.1, eqvWithList_eq f hinj p q (fun x hx => ha x (by simp [attrsOfBinders, hx])) (fun y hy => hb y (by simp [attrsOfBinders, hy])) h.1.2,
+          eqvWithBinders_eq f hinj as bs (fun x hx => ha x (by simp [attrsOfBinders, hx])) (fun y hy => hb y (by simp [attrsOfBinders, hy])) h.2]
 end
 
 /-- the executable structural equality decides equality. -/
